@@ -26,7 +26,7 @@ def blank_comments(src):
         out.append(c); i += 1
     return ''.join(out)
 
-TOK = re.compile(r'\s*(?:(0x[0-9a-fA-F_]+(?:[iu](?:8|16|32|64))?|0b[01_]+(?:[iu](?:8|16|32|64))?|0o[0-7_]+(?:[iu](?:8|16|32|64))?|\d[\d_]*\.\d[\d_]*(?:f32|f64)?|\d[\d_]*(?:f32|f64|[iu](?:8|16|32|64))?)|([A-Za-z_][A-Za-z_0-9]*)|(::|<<|>>|<=|>=|==|!=|=>|\.\.=|\.\.|[-+*/<>(){}.,;=!^&|:]))')
+TOK = re.compile(r'\s*(?:(0x[0-9a-fA-F_]+(?:[iu](?:8|16|32|64))?|0b[01_]+(?:[iu](?:8|16|32|64))?|0o[0-7_]+(?:[iu](?:8|16|32|64))?|\d[\d_]*\.\d[\d_]*(?:f32|f64)?|\d[\d_]*(?:f32|f64|[iu](?:8|16|32|64))?)|([A-Za-z_][A-Za-z_0-9]*)|(::|<<|>>|<=|>=|==|!=|=>|\|\||&&|\.\.=|\.\.|[-+*/<>(){}.,;=!^&|:]))')
 
 class TranslationError(Exception):
     pass
@@ -65,7 +65,17 @@ class P:
         if (k and t[0] != k) or (v and t[1] != v):
             raise TranslationError("expected %s %s got %s" % (k, v, t))
         s.i += 1; return t
-    def expr(s): return s.cmp()
+    def expr(s): return s.lor()
+    def lor(s):
+        a = s.land()
+        while s.peekv() == ('op', '||'):
+            s.eat(); b = s.land(); a = ('or', a, b)
+        return a
+    def land(s):
+        a = s.cmp()
+        while s.peekv() == ('op', '&&'):
+            s.eat(); b = s.cmp(); a = ('and', a, b)
+        return a
     def cmp(s):
         a = s.bitor()
         while s.peekv() in (('op', '<'), ('op', '>'), ('op', '<='), ('op', '>='), ('op', '=='), ('op', '!=')):
@@ -214,6 +224,9 @@ class P:
 def mk_if(c, a, b):
     # `if !c { a } else { b }` is `if c { b } else { a }` (NOT `c` with the comparison negated: `!(x >= 0.0)` holds for NaN)
     if c[0] == 'not': return mk_if(c[1], b, a)
+    # short-circuit connectives as nested decisions (conditions are pure)
+    if c[0] == 'or': return mk_if(c[1], a, mk_if(c[2], a, b))
+    if c[0] == 'and': return mk_if(c[1], mk_if(c[2], a, b), b)
     return ('if', c, a, b)
 
 def subst(e, name, by):
